@@ -32,8 +32,8 @@ func searchErrKind(err error) int {
 	switch {
 	case strings.Contains(s, "does not exist"):
 		return 1
-	case strings.Contains(s, "search: failed to get") && strings.HasSuffix(s, ": not found"):
-		return 5 // the index search read a node / vector as absent (ItemCache ErrNotFound)
+	case (strings.Contains(s, "search: failed to get") || strings.Contains(s, "failed to iterate over points")) && strings.HasSuffix(s, ": not found"):
+		return 5 // the index search (graph walk or flat scan) read a node / vector as absent (ItemCache ErrNotFound)
 	case strings.Contains(s, "transaction has ended"), strings.Contains(s, "tx closed"), strings.Contains(s, "already finished"):
 		return 2
 	}
